@@ -988,4 +988,4 @@ func netErrBefore(b *Node, id graphsync.RequestID, peerName string) bool {
 
 // lifeLockYieldFiles: the files of the whole-node lifecycle world that the lock-yield build instruments (the
 // sending path; not the traverser, whose state mutex is handed from one goroutine to another).
-var lifeLockYieldFiles = []string{"messagequeue/messagequeue.go", "responsemanager/responseassembler/responseassembler.go", "responsemanager/responseassembler/peerlinktracker.go", "peermanager/peermanager.go", "notifications/publisher.go", "allocator/allocator.go"}
+var lifeLockYieldFiles = []string{"messagequeue/messagequeue.go", "responsemanager/responseassembler/responseassembler.go", "responsemanager/responseassembler/peerlinktracker.go", "peermanager/peermanager.go", "notifications/publisher.go", "allocator/allocator.go", "taskqueue/taskqueue.go"}
